@@ -176,7 +176,7 @@ pub fn gen_cfg(r: &mut Rng, t: &Target) -> DumpCfg {
 }
 
 pub fn generate(prop: &str, seed: u64, tier: &str, out: &mut dyn std::io::Write) {
-    let (nsmall, nbig, per) = if tier == "thorough" { (150, 30, 4) } else { (20, 3, 3) };
+    let (nsmall, nbig, per) = if tier == "thorough" { (150, 30, 4) } else { (40, 4, 3) };
     for i in 0..(nsmall + nbig) {
         let mut r = Rng::for_case(seed, 1, i);
         let sc = gen_scenario(&mut r, i >= nsmall);
